@@ -67,7 +67,7 @@ def att2idx (att : Label) : IdxRes :=
 def att2name (att : Label) : Label := (splitUnderscore att).headD []
 
 def fidOfName (T : Tables) (name : Label) : Option Nat :=
-  (List.range T.fields.size).find? fun i => (T.fields[i]?).any fun f => f.name = name
+  T.fields.findIdx? fun f => f.name = name
 
 /-- `datadesc`: which data field's description is returned; `none` = KeyError -/
 def datadesc (T : Tables) (name : Label) : Option Nat :=
